@@ -608,15 +608,21 @@ fn build_debug_expr(
             Fields::Named(_) => true,
             Fields::Unnamed(_) | Fields::Unit => false,
         };
-        let mut expr = TokenStream::new();
-        let debug_x = match is_named {
-            true => quote!(debug_struct),
-            false => quote!(debug_tuple),
+        // Everything is called by path: with method syntax, a trait in scope that has by-value
+        // methods called `field` or `finish` would be picked instead of the builder's own.
+        let (builder_ty, new_builder) = match is_named {
+            true => (
+                quote!(::core::fmt::DebugStruct),
+                quote!(::core::fmt::Formatter::debug_struct),
+            ),
+            false => (
+                quote!(::core::fmt::DebugTuple),
+                quote!(::core::fmt::Formatter::debug_tuple),
+            ),
         };
         // like the standard derive, print raw identifiers without the `r#` prefix
         let name = ident.unraw().to_string();
-        expr.extend(quote!(__f.#debug_x(#name)));
-        let mut uses_field = false;
+        let mut stmts = TokenStream::new();
         for field in fields {
             if !field.hattrs.is_debug_ignore() {
                 let e = to_expr(field);
@@ -627,28 +633,31 @@ fn build_debug_expr(
                 // A reference to the field reference is `Sized` even if the field is not. It is
                 // turned into `&dyn Debug` by a helper so that the only obligation at this point is
                 // `FieldType: Debug`, exactly what the where-clause provides.
-                uses_field = true;
-                expr.extend(match is_named {
-                    true => quote! (.field(#member, __derive_ex_debug_ref(&#e))),
-                    false => quote! (.field(__derive_ex_debug_ref(&#e))),
+                stmts.extend(match is_named {
+                    true => quote!(#builder_ty::field(&mut __builder, #member, __derive_ex_debug_ref(&#e));),
+                    false => quote!(#builder_ty::field(&mut __builder, __derive_ex_debug_ref(&#e));),
                 });
                 field.push_bounds_to(use_bounds, kind, wcb);
             }
         }
-        expr.extend(quote!(.finish()));
-        if uses_field {
+        let helper = if stmts.is_empty() {
+            quote!()
+        } else {
             quote! {
-                {
-                    fn __derive_ex_debug_ref<'__a, __T: ?::core::marker::Sized + ::core::fmt::Debug>(
-                        __value: &'__a &__T,
-                    ) -> &'__a dyn ::core::fmt::Debug {
-                        __value
-                    }
-                    #expr
+                fn __derive_ex_debug_ref<'__a, __T: ?::core::marker::Sized + ::core::fmt::Debug>(
+                    __value: &'__a &__T,
+                ) -> &'__a dyn ::core::fmt::Debug {
+                    __value
                 }
             }
-        } else {
-            expr
+        };
+        quote! {
+            {
+                #helper
+                let mut __builder = #new_builder(__f, #name);
+                #stmts
+                #builder_ty::finish(&mut __builder)
+            }
         }
     };
     Ok(expr)
